@@ -429,28 +429,69 @@ Qed.
 Lemma cdiv_nonpos a st : 0 < st -> a <= 0 -> cdiv a st <= 0.
 Proof. intros Hs Ha. unfold cdiv. assert (0 <= (- a) / st) by (apply Z.div_pos; lia). lia. Qed.
 
-Theorem interactive_run_agrees s fuel : 0 < stepsz s -> clock s - stepsz s < stop s ->
-  steps_needed (clock s) (stop s) (stepsz s) <= Z.of_nat fuel ->
-  interactive_run fixed s = run_loop fuel fixed s.
+(* step() never touches the stop time *)
+Lemma step_stop nxt s : stop (step nxt s) = stop s.
+Proof. reflexivity. Qed.
+
+(* InteractiveContext.run is SimulationContext.run - for EVERY step-size rule, every state, every fuel *)
+Theorem interactive_run_agrees fuel : forall nxt s, interactive_run fuel nxt s = run_loop fuel nxt s.
 Proof.
-  intros Hs Ha Hf. rewrite run_count by assumption. unfold interactive_run, run_until.
-  destruct (Z.ltb_spec (clock s) (stop s)) as [Hl|Hg].
-  - rewrite cdiv_steps_needed by assumption.
-    destruct (take_steps_fixed (Z.to_nat (steps_needed (clock s) (stop s) (stepsz s))) s) as (_ & K & Z1 & _).
-    pose proof (steps_needed_nonneg (clock s) (stop s) (stepsz s) Hs) as Hn.
-    rewrite Z2Nat.id in K by assumption. rewrite K, Z1.
-    assert (B : stop s <= clock s + steps_needed (clock s) (stop s) (stepsz s) * stepsz s < stop s + stepsz s).
-    { unfold steps_needed. destruct (Z.ltb_spec (clock s) (stop s)); [|lia].
-      pose proof (ceil_bounds (stop s - clock s) (stepsz s) Hs). lia. }
-    destruct (Z.ltb_spec (clock s + steps_needed (clock s) (stop s) (stepsz s) * stepsz s - stepsz s) (stop s)); [|lia].
-    destruct (Z.leb_spec (stop s) (clock s + steps_needed (clock s) (stop s) (stepsz s) * stepsz s)); [|lia].
-    reflexivity.
-  - pose proof (cdiv_nonpos (stop s - clock s) (stepsz s) Hs ltac:(lia)) as Hc.
-    assert (E0 : Z.to_nat (cdiv (stop s - clock s) (stepsz s)) = O) by lia. rewrite E0.
-    assert (E1 : Z.to_nat (steps_needed (clock s) (stop s) (stepsz s)) = O).
-    { unfold steps_needed. destruct (Z.ltb_spec (clock s) (stop s)); [lia | reflexivity]. }
-    rewrite E1. cbn [take_steps].
-    destruct (Z.ltb_spec (clock s - stepsz s) (stop s)); [|lia]. destruct (Z.leb_spec (stop s) (clock s)); [|lia]. reflexivity.
+  unfold interactive_run. induction fuel as [|f IH]; intros nxt s; cbn [run_until run_loop].
+  - reflexivity.
+  - destruct (clock s <? stop s); [|reflexivity]. rewrite <- IH, step_stop. reflexivity.
+Qed.
+
+(* run_until to an arbitrary end time with a fixed step: exactly ceil((end - clock)/step) steps, none when end <= clock *)
+Theorem run_until_count fuel : forall s e, 0 < stepsz s ->
+  steps_needed (clock s) e (stepsz s) <= Z.of_nat fuel ->
+  run_until fuel fixed e s = Ok (take_steps (Z.to_nat (steps_needed (clock s) e (stepsz s))) fixed s).
+Proof.
+  induction fuel as [|f IH]; intros s e Hs Hf.
+  - cbn [run_until]. destruct (Z.ltb_spec (clock s) e) as [Hl|Hg].
+    + pose proof (steps_needed_pos _ _ _ Hs Hl). lia.
+    + unfold steps_needed. destruct (Z.ltb_spec (clock s) e); [lia|]. reflexivity.
+  - cbn [run_until]. destruct (Z.ltb_spec (clock s) e) as [Hl|Hg].
+    + destruct (step_trace fixed s) as (_ & K & Z1 & _). change (fixed (clock s + stepsz s) (stepsz s)) with (stepsz s) in Z1.
+      rewrite IH; rewrite ?Z1, ?K; try assumption.
+      * rewrite (steps_needed_succ (clock s)) by assumption.
+        pose proof (steps_needed_nonneg (clock s + stepsz s) e (stepsz s) Hs) as Hn.
+        rewrite Z2Nat.inj_add by lia. cbn [Z.to_nat Pos.to_nat Pos.iter_op Nat.add take_steps]. reflexivity.
+      * rewrite (steps_needed_succ (clock s)) in Hf by assumption. lia.
+    + unfold steps_needed. destruct (Z.ltb_spec (clock s) e); [lia|]. reflexivity.
+Qed.
+
+Theorem run_until_final s e fuel : 0 < stepsz s -> steps_needed (clock s) e (stepsz s) <= Z.of_nat fuel ->
+  exists s', run_until fuel fixed e s = Ok s'
+    /\ nsteps s' = nsteps s + steps_needed (clock s) e (stepsz s)
+    /\ clock s' = clock s + steps_needed (clock s) e (stepsz s) * stepsz s
+    /\ (clock s < e -> e <= clock s' < e + stepsz s)
+    /\ (e <= clock s -> s' = s).
+Proof.
+  intros Hs Hf. eexists. split; [apply run_until_count; assumption|].
+  pose proof (steps_needed_nonneg (clock s) e (stepsz s) Hs) as Hn.
+  destruct (take_steps_fixed (Z.to_nat (steps_needed (clock s) e (stepsz s))) s) as (_ & K & _ & _ & _ & _ & _ & N).
+  rewrite Z2Nat.id in K, N by assumption. repeat split; try assumption.
+  - rewrite K. unfold steps_needed. destruct (Z.ltb_spec (clock s) e); [|lia].
+    pose proof (ceil_bounds (e - clock s) (stepsz s) Hs). lia.
+  - rewrite K. unfold steps_needed. destruct (Z.ltb_spec (clock s) e); [|lia].
+    pose proof (ceil_bounds (e - clock s) (stepsz s) Hs). lia.
+  - intros Hge. unfold steps_needed. destruct (Z.ltb_spec (clock s) e); [lia|]. reflexivity.
+Qed.
+
+(* for ANY step-size rule: run_until stops exactly when the end time is reached - it ends with the clock at or after the
+   end, and (if it stepped at all) the clock before its last step was still before the end *)
+Theorem run_until_stops_at_end fuel : forall nxt e s s', run_until fuel nxt e s = Ok s' ->
+  e <= clock s' /\ (clock s < e -> exists s1, clock s1 < e /\ s' = step nxt s1).
+Proof.
+  induction fuel as [|f IH]; intros nxt e s s' H; cbn [run_until] in H.
+  - destruct (Z.ltb_spec (clock s) e); [discriminate|]. inversion H; subst. split; [assumption | lia].
+  - destruct (Z.ltb_spec (clock s) e) as [Hl|Hg].
+    + destruct (IH _ _ _ _ H) as [A B]. split; [assumption|]. intros _.
+      destruct (Z.ltb_spec (clock (step nxt s)) e) as [Hl2|Hg2].
+      * exact (B Hl2).
+      * exists s. split; [assumption|]. destruct f; cbn [run_until] in H;
+          destruct (Z.ltb_spec (clock (step nxt s)) e); try lia; now inversion H.
+    + inversion H; subst. split; [assumption | lia].
 Qed.
 
 (* ---- a whole simulation ---- *)
